@@ -244,7 +244,17 @@ def sequential_histories(rep, work, hs, tier, rng):
     filters = {}
     for i in range(1, max(nf, 2 * cap + 200) + 1):
         filters[i] = ('tq%d' % i) if i % 7 else ('tQ%d' % (i - 1))     # case twins of a neighbour
+    # the first filters carry literals that are EQUAL as Python objects but of different Haystack kinds
+    # (1 and true, 0 and false, "1"): what one filter was compiled with must not reach another
+    lit = {1: ('x == 1', None), 2: ('yb == true', ('yb', True)), 3: ('ys == "1"', ('ys', '1')), 4: ('x == 4.0', None),
+           5: ('z == 0', ('z', 0.0)), 6: ('yb == false', ('yb', False)), 8: ('yb != false and yb == true', ('yb', True)),
+           9: ('z == 1', ('z', 1.0)), 10: ('yb == true', ('yb', True))}
+    for i, (cond, _) in lit.items():
+        filters[i] = '%s and %s' % (filters[i], cond)
     grid, rows = w.make_grid(filters)
+    for i, (_, cell) in lit.items():
+        if cell:
+            rows[i][cell[0]] = cell[1]
     hist = {
         'distinct': list(range(1, nf + 1)),
         'cycle_cap_minus_1': [(i % (cap - 1)) + 1 for i in range(nf)],
